@@ -68,6 +68,7 @@ def wrap_elem(t, elem):
 def unwrap_elem(I, v, elem):
     if isinstance(elem, tuple) and elem[0] == "adt":
         return ADTS[elem[1]][2](I, v)
+    v = I.force(v)
     if elem == "int":
         return mk_int(v)
     if elem == "bool":
@@ -130,6 +131,8 @@ def truth(I, v):
                 r = I.call_function(m, v, [], {})
                 return truth(I, r)
         return True
+    if isinstance(v, CharSet):
+        return z3.Length(v.t) > 0
     if isinstance(v, (EnumVal, ClassRef, BuiltinClass, FuncRef, Closure, BoundMethod, External, NativeFn, SymCallable, ExcValue, ModuleRef)):
         return True
     raise OutsideSubset(f"truth value of {v!r}")
@@ -358,6 +361,10 @@ def contains(I, container, x, node):
         m = c.cls.find_method("__iter__")
         if m is not None:
             return or_any([py_eq(I, x, y) for y in iterate(I, c, node)])
+    if isinstance(c, CharSet):
+        if kind_of(x) != "str":
+            return False
+        return z3.Contains(c.t, mk_str(x))      # x is a single character wherever this model is used (iteration variable of a str)
     if isinstance(c, SymDict):
         return c.has_key(I, x)
     raise OutsideSubset(f"`in` on {c!r} (line {getattr(node, 'lineno', '?')})")
@@ -702,9 +709,28 @@ def symbolic_comprehension(I, e, env, module, cls):
         return None
     it = I.eval(e.generators[0].iter, env, module, cls)
     it_f = sv(I.force(it))
+    if isinstance(it_f, Sym) and it_f.kind == "str" and isinstance(e.elt, ast.Compare) and len(e.elt.ops) == 1 and isinstance(e.elt.ops[0], ast.In) \
+            and isinstance(e.elt.left, ast.Name) and e.elt.left.id == e.generators[0].target.id:
+        cs = I.force(I.eval(e.elt.comparators[0], env, module, cls))
+        if isinstance(cs, CharSet):
+            return IntersectsGen(it_f.t, cs.t)
     if not (isinstance(it_f, Sym) and it_f.kind == "seq"):
         return None
     var = e.generators[0].target.id
+    if isinstance(it_f.elem, tuple) and it_f.elem[0] == "adt" and isinstance(e.elt, ast.Call) and isinstance(e.elt.func, ast.Name) and e.elt.func.id == "isinstance" \
+            and isinstance(e.elt.args[0], ast.Name) and e.elt.args[0].id == var:
+        # (isinstance(x, C) for x in <sequence of ADT elements>): decided per constructor; consumable by any()
+        cls_v = I.eval(e.elt.args[1], env, module, cls)
+        sort, wrap, _ = ADTS[it_f.elem[1]]
+        probe = z3.Const("probe!", sort)
+        hits = []
+        for cond, val in wrap(probe).alts:
+            r = isinstance_(I, val, cls_v)
+            if not isinstance(r, bool):
+                raise OutsideSubset("isinstance over ADT elements is not decided per constructor")
+            if r:
+                hits.append(cond)
+        return CtorGen(it_f.t, probe, hits)
     elt = e.elt
     # supported body: x.method(args...) with args not mentioning x, method declared for the opaque element sort
     if isinstance(elt, ast.Call) and isinstance(elt.func, ast.Attribute) and isinstance(elt.func.value, ast.Name) and elt.func.value.id == var \
@@ -1033,6 +1059,29 @@ class SymDict:
 
     def has_key(self, I, k):
         raise OutsideSubset("SymDict")
+
+
+class CtorGen:
+    """(isinstance(x, C) for x in seq): hits = conditions (over `probe`) of the constructors that are instances of C"""
+
+    def __init__(self, seq, probe, hits):
+        self.seq, self.probe, self.hits = seq, probe, hits
+
+    def any_term(self):
+        out = []
+        for h in self.hits:
+            # nullary constructors appear as `probe == K`: membership of the constant
+            if z3.is_eq(h) and (z3.eq(h.arg(0), self.probe) or z3.eq(h.arg(1), self.probe)):
+                k = h.arg(1) if z3.eq(h.arg(0), self.probe) else h.arg(0)
+                out.append(z3.Contains(self.seq, z3.Unit(k)))
+            else:
+                raise OutsideSubset("any(isinstance(..)) over a constructor with fields")
+        return mk_or(out)
+
+
+def intersects(s, chars):
+    """some character of s occurs in chars (uninterpreted; defining equations supplied as hints)"""
+    return z3.Function("str.intersects", z3.StringSort(), z3.StringSort(), z3.BoolSort())(s, chars)
 
 
 def dict_sort():
